@@ -166,4 +166,18 @@ PROPS = {
         "level_text": "Theorems (Props/C05.lean) for bags of any size and any row functions/predicates: the rows attributed to a unit by map, filter, union, tracked-tracked join (unit equality), inner and left join with a published relation, and per-unit reduce are exactly those obtained from the inputs restricted to that unit; counterexamples for a kept LIMIT and for outer joins preserving the published side (NULL unit). The real rewriting is executed on SQLite on D and on D restricted to one unit and the unit's rows compared.",
         "level_note": "Trusted: Lean kernel; SQLite and shims. Modelled, not verified: the IR-to-IR transformers themselves (table path joins, renaming) are observed through execution only.",
     },
+    "C04": {
+        "lean_modules": ["QrlewModel.Props.C04"],
+        "streams": [
+            {"name": "limit", "n_quick": 3000, "n_thorough": 150000, "min_per_proc": 100},
+            {"name": "c04", "n_quick": 1200, "n_thorough": 50000, "compare": False, "min_per_proc": 50},
+        ],
+        "rule": "limit: (unit, key) tables (1-5 units x 1-8 keys, 2/3 density), K in 1..4: the real limit_col_contributions relation executed on SQLite with a seeded RANDOM() and with constant draws (all ranks tie); per-unit row counts ≤ K, and under ties compared with the Lean rank-filter model; non-trivial = some unit had more than K groups. "
+                "c04: grouped queries on private-valued keys (and public+private key pairs, filters, joins) x DpParameters (ε, δ, share, max groups) x databases of 5-600 units: τ and the count noise read off the IR vs an independent computation (Acklam normal quantile), and execution with noise neutralised: a released key must be held by more than τ units",
+        "trusted_base": COMMON_TRUST + ["SQLite 3.40 + harness shims as executor", "Acklam's approximation of the normal quantile (relative error 1e-9) as independent reference for τ", "Mathlib reals"],
+        "assumptions": ["the rank filter is sound only if the SQL engine evaluates RANDOM() once per row of the relation that both sides of the self-join read; this is observed on SQLite only and cannot be exhibited by the model", "Φ⁻¹ is monotone with Φ⁻¹(1/2) = 0 (so the quantile factor is ≥ 0 for (1-δ)^(1/K) ≥ 1/2)"],
+        "technique": "Lean 4 proof (a unit keeps at most K groups for every rank assignment; τ ≥ 1; singleton keys never released with non-positive noise) + execution of the real limiting / thresholding relations on SQLite + independent recomputation of τ",
+        "level_text": "Theorems (Props/C04.lean): for any list of random ranks (ties allowed) the rank filter keeps at most K rows of a unit; τ = 1 + σ·q ≥ 1 for σ, q ≥ 0; a key with distinct-unit count 1 is not released when the noise draw is ≤ 0. The real limit_col_contributions and tau-thresholding relations are executed on SQLite (seeded and constant draws); τ and σ in the rewritten query are compared with an independent computation from (ε·share, δ·share, K).",
+        "level_note": "Trusted: Lean kernel; SQLite; harness. Named runtime behaviour the model cannot exhibit: per-reference re-evaluation of RANDOM() by an SQL engine.",
+    },
 }
